@@ -81,6 +81,35 @@ def append_comment(src: str, line: int, comment: str):
   return new
 
 
+def append_comment_tokens_only(src: str, line: int, comment: str):
+  """Like append_comment but for sources CPython tokenizes yet refuses to compile."""
+  lines = src.split("\n")
+  if not 1 <= line <= len(lines) or lines[line - 1].rstrip().endswith("\\"):
+    return None
+  lines[line - 1] += "  # " + comment
+  new = "\n".join(lines)
+  a, b = _tokens(src), _tokens(new)
+  if a is None or b is None or _significant(a) != _significant(b):
+    return None
+  return new
+
+
+COMPILE_ERROR_PROGRAMS = [
+    "x = 1\nreturn 1\ny = 2\n",
+    "x = 1\nbreak\n",
+    "for i in [1]:\n  pass\ncontinue\n",
+    "def f():\n  x = 1\n  nonlocal q\n  return x\n",
+    "def f(a, a):\n  return a\n",
+    "x = 1\nyield x\n",
+    "def f(k):\n  return k\nf(a=1, a=2)\n",
+    "x = 2\n1 = x\n",
+    "def g():\n  v = 1\n  global v\n",
+    "async def h():\n  pass\nawait h()\n",
+    "x = [1]\ndel x()\n",
+    "class C:\n  def m(self):\n    return 1\n  return 2\n",
+]
+
+
 def insert_lines(src: str, inserts):
   """inserts: [(before_line, comment)] in ORIGINAL numbering (before_line may be
   nlines+1 = append).  Returns (new_src, mapping fn orig_line -> new_line, positions
@@ -240,6 +269,21 @@ def diff_reports(expected, actual):
 # ---------------------------------------------------------------------------
 # classification of a disagreement into mechanism keys
 
+K_CONT_STMT = ("trailing directive on a continuation line also silences a named-class error on the first line of "
+               "the statement containing it")
+K_CONT_EXPR = ("trailing directive on a continuation line also silences a named-class error on the first line of "
+               "an enclosing call/compare/subscript expression (not the statement's first line)")
+K_IMPORT = ("`type: ignore` on an import line stops the import: every name imported on that line becomes Any and "
+            "the stub changes")
+K_IMPLICIT_MOVE = ("a directive comment inside a function's final multi-line statement moves the implicit-return "
+                   "bad-return-type error from the function's last line to that statement's first line")
+K_IMPLICIT_GONE = ("trailing directive inside a function's final multi-line statement also silences the "
+                   "implicit-return bad-return-type error reported on the function's last line")
+K_DIRECTOR_TIME = ("errors logged while directive comments are parsed (invalid-directive, ignored-type-comment, "
+                   "late-directive) bypass the directive filter and cannot be silenced on their line")
+K_COMPILE = "python-compiler-error is never subject to directives (no Director exists when compilation fails)"
+DIRECTOR_TIME_ERRORS = frozenset(("invalid-directive", "ignored-type-comment", "late-directive"))
+
 
 def classify_trailing(geo: Geometry, E, L, spelling, survivors, missing, added, stub_changed):
   """Returns a list of (key, detail) for one trailing-directive case.
@@ -266,13 +310,13 @@ def classify_trailing(geo: Geometry, E, L, spelling, survivors, missing, added, 
   for m, twin in moved:
     if (m[0] == "bad-return-type" and geo.is_implicit_return_line(m[1]) and st and m[1] == st[1]
         and twin[1] == st[0] and st[0] < st[1]):
-      keys.append((f"`{spelling}` comment inside a function's final multi-line statement moves the implicit-return "
-                   "bad-return-type error from the function's last line to that statement's first line",
-                   {"moved": [m, twin]}))
+      keys.append((K_IMPLICIT_MOVE, {"moved": [m, twin]}))
     else:
       keys.append((f"`{spelling}` on a {where} of a {kind} statement moves a {m[0]} error to another line "
                    f"(delta {twin[1] - m[1]:+d})", {"moved": [m, twin]}))
-  for s in survivors:
+  for s in [x for x in survivors if x[0] in DIRECTOR_TIME_ERRORS]:
+    keys.append((K_DIRECTOR_TIME, {"survivor": s}))
+  for s in [x for x in survivors if x[0] not in DIRECTOR_TIME_ERRORS]:
     adj = "implicit-return line" if (s[0] == "bad-return-type" and geo.is_implicit_return_line(L)) else where
     keys.append((f"`{spelling}` on the reported line does not silence {s[0]} ({adj} of a {kind} statement)",
                  {"survivor": s}))
@@ -283,17 +327,12 @@ def classify_trailing(geo: Geometry, E, L, spelling, survivors, missing, added, 
     doc_call = lambda n: n == E and n in DOC_CALL_ERRORS
   for m in missing_left:
     if st and m[1] == st[0] and st[0] < L <= st[1] and doc_stmt(m[0]):
-      keys.append((f"`{spelling}` on a continuation line also silences an error of a named class on the first "
-                   "line of the statement containing it", {"extra_removed": m}))
+      keys.append((K_CONT_STMT, {"extra_removed": m}))
     elif m[1] in geo.enclosing_expr_starts(L) and doc_call(m[0]):
-      keys.append((f"`{spelling}` on a continuation line also silences an error of a named class on the first "
-                   "line of an enclosing call/compare/subscript expression (not the statement's first line)",
-                   {"extra_removed": m}))
+      keys.append((K_CONT_EXPR, {"extra_removed": m}))
     elif (m[0] == "bad-return-type" and geo.is_implicit_return_line(m[1]) and st and st[0] < st[1]
           and m[1] == st[1] and st[0] <= L <= st[1] and doc_stmt(m[0])):
-      keys.append((f"`{spelling}` inside a function's final multi-line statement also silences the implicit-return "
-                   "bad-return-type error reported on the function's last line (the comment moves that error to "
-                   "the statement's first line, which the directive also covers)", {"extra_removed": m}))
+      keys.append((K_IMPLICIT_GONE, {"extra_removed": m}))
     else:
       rel = "same statement" if st and st[0] <= m[1] <= st[1] else "another statement"
       keys.append((f"`{spelling}` on a {where} of a {kind} statement removes a {m[0]} error on a different line "
@@ -303,8 +342,7 @@ def classify_trailing(geo: Geometry, E, L, spelling, survivors, missing, added, 
     keys.append((f"`{spelling}` on a {where} of a {kind} statement adds a new {a[0]} error", {"added": a}))
   if stub_changed:
     if spelling == SPELL_IGNORE and kind in ("Import", "ImportFrom"):
-      keys.append(("`type: ignore` on an import line stops the import: every name imported on that line becomes "
-                   "Any and the stub changes", {}))
+      keys.append((K_IMPORT, {}))
     else:
       keys.append((f"`{spelling}` on a {where} of a {kind} statement changes the stub", {}))
   return keys
@@ -334,23 +372,24 @@ def classify_standalone(geo: Geometry, E, a, b, missing, added, stub_changed, su
                  and x[1] != m[1]), None)
     if twin is not None and implicit_move(m, twin):
       added_left.remove(twin)
-      keys.append(("stand-alone directive comment inside a function's final multi-line statement moves the "
-                   "implicit-return bad-return-type error to the statement's first line",
-                   {"moved": [m, twin], "note": "moved out of the disabled range"}))
+      keys.append((K_IMPLICIT_MOVE, {"moved": [m, twin], "note": "stand-alone; moved out of the disabled range"}))
   for m in missing:
     twin = next((x for x in added_left if x[0] == m[0] and shift_free(x[2]) == shift_free(m[2])), None)
     if twin is not None:
       added_left.remove(twin)
       if implicit_move(m, twin):
-        keys.append(("stand-alone directive comment inside a function's final multi-line statement moves the "
-                     "implicit-return bad-return-type error to the statement's first line", {"moved": [m, twin]}))
+        keys.append((K_IMPLICIT_MOVE, {"moved": [m, twin], "note": "stand-alone"}))
       else:
         keys.append((f"stand-alone directive moves a {m[0]} error (delta {twin[1] - m[1]:+d} after renumbering)",
                      {"moved": [m, twin]}))
     else:
       missing_left.append(m)
   for s in survivors:
-    keys.append((f"stand-alone disable..enable range does not silence {s[0]} inside the range", {"survivor": s}))
+    if s[0] in DIRECTOR_TIME_ERRORS:
+      keys.append((K_DIRECTOR_TIME, {"survivor": s, "note": "stand-alone"}))
+    else:
+      keys.append((f"stand-alone disable..enable range does not silence {s[0]} inside the range",
+                   {"survivor": s}))
   for m in missing_left:
     o = unshift.get(m[1])
     st = geo.statement_of(o) if o else None
@@ -358,9 +397,7 @@ def classify_standalone(geo: Geometry, E, a, b, missing, added, stub_changed, su
         and b is not None and st[0] < b <= st[1] and a <= st[0]):
       # the comment sits inside the final statement: the error moves to the statement's first
       # line; if that line is inside the range it is silenced there
-      keys.append(("stand-alone directive comment inside a function's final multi-line statement moves the "
-                   "implicit-return bad-return-type error to the statement's first line",
-                   {"extra_removed": m, "note": "moved into the disabled range"}))
+      keys.append((K_IMPLICIT_MOVE, {"extra_removed": m, "note": "stand-alone; moved into the disabled range"}))
     else:
       keys.append((f"stand-alone disable..enable range silences {m[0]} outside the range "
                    f"({'named class' if m[0] == E else 'class NOT named'})", {"extra_removed": m}))
